@@ -98,7 +98,8 @@ func (e *Engine) Run(env *core.Env, run int, res *core.Result) *core.Violation {
 		sc.Knobs.MaxSteps = v
 	}
 	body, _ := json.Marshal(sc)
-	c := &core.Case{Property: env.Property, Engine: "e2", Seed: env.Seed, Run: run, Body: body, GenTape: true, ReplayExact: !e.Race, Profile: profile}
+	// (runs with random-choice commands depend on Go's map iteration order inside the server)
+	c := &core.Case{Property: env.Property, Engine: "e2", Seed: env.Seed, Run: run, Body: body, GenTape: true, ReplayExact: !e.Race && !sc.Knobs.Nondet, Profile: profile}
 	if sc.Aim && knownDeathListed(env) && os.Getenv("VERIF_NOSANDBOX") == "" {
 		// this run aims at listed findings, some of which kill the process
 		sig, msg, died, err := runInChild(env, c, e.TestName)
